@@ -80,6 +80,24 @@ def jobs(prop, tier):
             return [SE(c + "_edge", 2) for c in ent] + [SE("sync_sc_edge", 2, rate=0.05), SE("sync_3_edge", 3, rate=0.002)]
         return [SM(c) for c in ent] + [SE(c + "_edge", 2) for c in ent] + [SE("sync_sc_edge", 2, rate=0.5), SE("sync_3_edge", 3, rate=0.03),
                                                                          SE("sync_basic_edge", 2, rate=0.3)]
+    if prop == "C19":
+        pe = dict(mode="edge", cfg="doc_patch_edge", kind="doc", n=2, dump_module="OrdaReplicaProbeDump.tla")
+        sp = dict(mode="edge", cfg="snap_patch_edge", kind="doc", n=2, tool="snapreplay", dump_module="OrdaSnapDump.tla")
+        ns = dict(sp, cfg="snap_nosnap_edge")
+        if q:
+            return [dict(pe, rate=0.25), dict(sp, rate=0.25), dict(ns, rate=0.25)]
+        return [dict(pe, rate=1.0), dict(sp, rate=1.0), dict(ns, rate=1.0), dict(mode="sim", cfg="snap_patch_sim", kind="doc", n=2, num=40, depth=50, tool="snapreplay", dump_module="OrdaSnapDump.tla")]
+    if prop in ("C11", "C18"):
+        def SN(cfg, kind, rate=1.0):
+            return dict(mode="edge", cfg=cfg, kind=kind, n=2, rate=rate, tool="snapreplay", dump_module="OrdaSnapDump.tla")
+
+        def SNS(cfg, kind, n, num, depth):
+            return dict(mode="sim", cfg=cfg, kind=kind, n=n, num=num, depth=depth, tool="snapreplay", dump_module="OrdaSnapDump.tla")
+        if q:
+            return ([SN("snap_small_edge", k) for k in ("counter", "map")] + [SN("snap_mid_edge", k, rate=0.25) for k in ("list", "doc")] +
+                    [SNS("snap_sim", "list", 3, 6, 40), SNS("snap_sim", "doc", 3, 6, 40)])
+        return ([dict(mode="mc", cfg="snap_mc", kind="list", module="OrdaSnap.tla")] + [SN("snap_mid_edge", k) for k in ("counter", "map", "list", "doc")] +
+                [SN("snap_patch_edge", "doc")] + [SNS("snap_sim", k, 3, 60, 50) for k in ("counter", "map", "list", "doc")])
     if prop == "C16":
         f = dict(dump_module="OrdaSyncProbeDump.tla")
         if q:
